@@ -42,3 +42,8 @@
 ; C12/C13: the canonical (ascending) enumeration of the names in a domain
 (declare-fun sortedKeyOf ((Array Str Bool) Int) Str)
 (define-fun strlt ((a Str) (b Str)) Bool (str.lt a b))
+; "the parameter names are pairwise distinct", stated through an (arbitrary) indexing of names: forall k: nameIndex(P[k]) == k
+(declare-fun nameIndex (Str) Int)
+; distinctParamsOf(d): "the parameter names of declaration d are pairwise distinct" -- an otherwise uninterpreted predicate that
+; contracts constrain only by `defines distinctParamsOf(d) ==> forall k: nameIndex(P[k]) == k` (a conservative definition)
+(declare-fun distinctParamsOf (Int) Bool)
